@@ -2,29 +2,38 @@
 
 Sub-checks
   kl_grad          KL.grad vs Richardson finite differences of KL.evaluate (PNR mode); KL.evaluate vs the oracle's own
-                   -mean(log P) with P from a brute-force hafnian
-  stochastic_grad  Stochastic.grad vs finite differences of Stochastic.evaluate on one pre-loaded sample set;
-                   Stochastic.evaluate vs the documented reparametrisation formula
+                   -mean(log P) with P from a brute-force hafnian; data handed over as int or float array; __call__
+  stochastic_grad  Stochastic.grad vs finite differences of Stochastic.evaluate on one fixed sample set;
+                   Stochastic.evaluate vs the documented reparametrisation formula.  The set reaches the model through
+                   add_A_init_samples / the constructor / two stacked batches / not at all, and the cost asks for all, fewer
+                   or more rows than stored (top-up by VGBS.generate_samples, seeded, once): bookkeeping of the set
   jacobian         Exp / ExpFeatures: weights == exp(-F theta), jacobian == finite differences of weights
   model_probs      VGBS as a model of a Gaussian state: A_init reproduces the requested mean photons / clicks, W and A as
                    documented, A_to_cov vs the refsim state of A (up to a global phase rotation, see ASSUMPTIONS),
                    prob_photon_sample vs brute-force hafnian and vs thewalrus.probabilities(reference state), prob_click
                    normalised and equal to inclusion-exclusion over vacuum probabilities of the reference state,
-                   mean_photons_by_mode / mean_clicks_by_mode / n_mean vs the reference state
-  similarity       prob_orbit_exact / prob_event_exact vs brute-force sums over the reference state (with loss);
-                   prob_orbit_mc / prob_event_mc inside the rigorous interval cardinality*[min p, max p] and equal to the
-                   exact value on complete graphs
+                   mean_photons_by_mode / mean_clicks_by_mode / n_mean vs the reference state; generate_samples (hbar = 2):
+                   click patterns are 0/1, PNR samples of the pure state have an even photon number
+  similarity       prob_orbit_exact / prob_event_exact vs brute-force sums over the reference state (with loss, loss = 1 and
+                   n_mean = 0 included); prob_orbit_mc / prob_event_mc inside the rigorous interval cardinality*[min p, max p]
+                   and equal to the exact value on complete graphs; feature_vector_orbits / feature_vector_events (exact:
+                   brute force, in request order; Monte Carlo: equal to prob_*_mc under the same numpy seed)
   vibronic         gbs_params: U2 exp(r) U1 == Wp^1/2 Ud W^-1/2, orthogonality, alpha, thermal t; VibronicTransition on
-                   the gaussian backend == refsim D(alpha) R(U2) S(r) R(U1) on a displaced squeezed input
+                   the gaussian backend == refsim D(alpha) R(U2) S(r) R(U1) on a displaced squeezed input, with the
+                   parameters of gbs_params and with directly supplied complex unitaries / displacements; energies
   dynamics         TimeEvolution(w, t): Fock amplitudes only acquire the phases exp(-i 2 pi c w t n), additive in t, total
                    photon-number distribution conserved inside Ul^T .. Ul; gaussian backend == refsim rotation
   duschinsky       utils.duschinsky: U = Lf^T Li, delta = l^-1 d with hand-typed constants, q_f = U q_i + d
   marginals        utils.marginals vs the oracle's own photon statistics of the reduced reference state; utils.prob == frequency
   samplers         vibronic.sample / dynamics.sample_* : shape, non-negative integers, photon-number bookkeeping that
-                   holds deterministically (seeded numpy); no statistics
+                   holds deterministically (seeded numpy): loss = 1 -> all zeros; t = 0 or Ul a permutation -> the evolution
+                   is diagonal (Fock input is returned unchanged, TMSV halves are equal mode by mode, vacuum modes of a
+                   coherent input stay empty); alpha = 0 -> halves of a vibronic sample have equal parity; only two-mode
+                   squeezers -> halves equal; no statistics
 """
 from __future__ import annotations
 
+import collections
 import itertools
 import math
 
@@ -40,7 +49,9 @@ RULE = ("Hypothesis-generated symmetric real matrices on 2..5 modes (unweighted/
         "molecules: frequencies 100..4000 cm^-1, Duschinsky matrices (identity, permutation, orthogonal, perturbed "
         "orthogonal), displacements, temperatures, times 0..100 fs. Non-trivial: gradient norm > 1e-6 and matrix not "
         "diagonal (train), Duschinsky matrix not the identity (vibronic), >= 2 modes with distinct frequencies and t != 0 "
-        "(dynamics); distinct = distinct JSON")
+        "(dynamics); distinct = distinct JSON. Stochastic sample sets: pre-loaded by add/constructor/two batches/none, n_samples "
+        "below, at and above the stored number; samplers: loss in {0, 0.3, 1}, t = 0 with non-symmetric Ul, permutation Ul, "
+        "alpha = 0, pure two-mode squeezing; VibronicTransition also with complex unitaries and displacements")
 ASSUMPTIONS = [
     "finite differences: central, steps h and h/2 with h=2e-3, Richardson extrapolated; gradients must agree to "
     "1e-6*(1+max|g|) (unchanged tree, 5000 cases: <= 1.1e-8), jacobians to 1e-8*(1+max|J|) (measured 4e-13)",
@@ -61,11 +72,19 @@ ASSUMPTIONS = [
     "physical constants typed by hand (SI 2019 exact h, c, k; CODATA 2022 m_u) - agreement demanded to 1e-7 relative",
     "Monte-Carlo helpers: only the deterministic interval bound cardinality*[min p, max p] and the complete-graph identity, "
     "no statistics; samplers: only structure and photon-number bookkeeping that holds with certainty (seeded numpy)",
+    "sample-set bookkeeping of VGBS/Stochastic: get_A_init_samples(n) must return n rows taken from the stored set, the same rows on "
+    "every call; pre-loaded rows are never dropped; n > stored adds rows (once) that are PNR samples (even photon number: the state "
+    "of a real symmetric A is a pure zero-mean Gaussian state).  VGBS.generate_samples is only exercised at hbar = 2 "
+    "(finding F73, fixed in /repo: thewalrus 0.22 samplers ignore hbar in the covariance)",
+    "sampler identities used with certainty: Ul exp(-i w t n) Ul^T is diagonal when t = 0 (Ul orthogonal to 1e-15: a deviating "
+    "sample has probability < 1e-24) or Ul is a signed permutation; loss = 1 means LossChannel(0)",
     "prob_event_exact on an EMPTY event (photon_number > modes * max_count_per_mode) raising ValueError is treated as a "
     "rejection (event_to_sample documents a ValueError for it); a non-empty event must be computed",
 ]
 REQUIRED_LABELS = {"all": ["kl_grad", "stochastic_grad", "jacobian", "prob_click_norm", "prob_pnr", "vibronic", "dynamics",
-                           "emb:Exp", "emb:ExpFeatures", "duschinsky", "marginals", "similarity"]}
+                           "emb:Exp", "emb:ExpFeatures", "duschinsky", "marginals", "similarity",
+                           # input classes added by the generator audit (each >= 90 per quick run at seeds 1..5)
+                           "data:float", "generate_samples", "energies", "vt_direct", "feature_vectors", "dyn:t=0", "second_call_loss=1"]}
 
 # hand-typed constants (SI 2019 exact values; m_u CODATA 2022, differs from CODATA 2018 by 1.4e-9 relative)
 H_PLANCK = 6.62607015e-34
@@ -460,6 +479,8 @@ def kl_case(draw):
             row[j] += 1
         rows.append(row)
     case["data"] = rows
+    # the class docstring hands the data over as a FLOAT array (np.zeros((4, 4))); training sets loaded from files are float as well
+    case["data_float"] = draw(st.booleans())
     return case
 
 
@@ -469,10 +490,10 @@ def check_kl(ctx, case):
     A = spec.dec_param(case["A"])
     F = feature_matrix(case)
     theta = np.array(case["theta"], float)
-    data = np.array(case["data"], dtype=int)
+    data = np.array(case["data"], dtype=float if case.get("data_float") else int)
     x = own_scale(A, case["n_mean"], False)
     labs, offdiag = matrix_labels(A)
-    labs += ["kl_grad", "emb:" + case["emb"]]
+    labs += ["kl_grad", "emb:" + case["emb"], "data:float" if case.get("data_float") else "data:int"]
     if not in_domain(case, x * A) or np.any(A < 0):
         ctx.note(case, False, ["out_of_domain"])
         return None
@@ -481,11 +502,14 @@ def check_kl(ctx, case):
         kl = cost.KL(data, vg)
         g = np.asarray(kl.grad(theta), float)
         val = float(kl.evaluate(theta))
+        vcall = float(kl(theta))
         gfd = richardson(lambda t: float(kl.evaluate(t)), theta)
     except Exception as exc:  # pylint: disable=broad-except
         ctx.note(case, False, labs)
         return ctx.crash(exc, "kl")
     ctx.note(case, nontrivial=bool(np.linalg.norm(g) > 1e-6 and offdiag), labels=labs)
+    if abs(vcall - val) > 1e-12 * (1 + abs(val)):
+        return ctx.fail("kl.call_vs_evaluate", "KL.__call__ = %.12g, KL.evaluate = %.12g" % (vcall, val))
     # value of the cost vs the oracle's own model
     At, _ = own_A_theta(x * A, F, theta)
     probs = [pnr_prob(At, row) for row in data]
@@ -528,17 +552,30 @@ def check_kl(ctx, case):
 # =============================================================================================
 # stochastic_grad
 # =============================================================================================
+STORE_HOW = ["two_batches", "ctor", "add", "none", "ctor_then_add"]  # (Hypothesis favours the early entries)
+
+
 @st.composite
 def stoch_case(draw):
     case = draw(model_case(threshold=False, signed=draw(st.integers(0, 3)) == 0))
     m = case["m"]
-    k = draw(st.integers(1, 5))
+    # how the fixed sample set reaches the model (one add_A_init_samples call / the constructor argument / two calls, which are
+    # stacked / constructor then a call / nothing pre-loaded: "generated once upon the first call") and how many of its rows the
+    # cost function is asked to use (all / fewer / more than stored: the set is topped up by the library's sampler, once)
+    how = draw(st.sampled_from(STORE_HOW))
+    k = 0 if how == "none" else draw(st.integers(2 if how in ("two_batches", "ctor_then_add") else 1, 5))
     case["samples"] = [draw(st.lists(st.integers(0, 3), min_size=m, max_size=m)) for _ in range(k)]
     kind = draw(st.sampled_from(["linear", "quadratic"]))
     h = {"kind": kind, "c": draw(st.lists(gen.fl(-1.0, 1.0), min_size=m, max_size=m)), "c0": draw(gen.fl(-1.0, 1.0))}
     if kind == "quadratic":
         h["Q"] = spec.enc_matrix(np.array(draw(st.lists(gen.fl(-1.0, 1.0), min_size=m * m, max_size=m * m))).reshape(m, m))
     case["h"] = h
+    case["store"] = {"how": how, "split": draw(st.integers(1, k - 1)) if k > 1 else 0}
+    req = "more" if how == "none" else draw(st.sampled_from(["fewer", "all", "more", "fewer", "all"]))
+    if req == "fewer" and k == 1:
+        req = "all"
+    case["ns"] = k if req == "all" else (draw(st.integers(1, k - 1)) if req == "fewer" else k + draw(st.integers(1, 2 if k == 0 else 1)))
+    case["seed"] = draw(st.integers(0, 2 ** 31 - 1))
     return case
 
 
@@ -556,6 +593,10 @@ def make_h(h):
     return fun
 
 
+def _rows(a):
+    return collections.Counter(tuple(int(v) for v in r) for r in np.asarray(a))
+
+
 def check_stoch(ctx, case):
     from strawberryfields.apps.train import cost, param
 
@@ -563,43 +604,81 @@ def check_stoch(ctx, case):
     m = case["m"]
     F = feature_matrix(case)
     theta = np.array(case["theta"], float)
-    samples = np.array(case["samples"], dtype=int)
-    ns = len(samples)
+    samples = np.array(case["samples"], dtype=int).reshape(len(case["samples"]), m)
+    pre = len(samples)
+    ns = int(case.get("ns", pre))
+    store = case.get("store") or {"how": "add", "split": 0}
+    how, split = store["how"], int(store["split"])
     hfun = make_h(case["h"])
     x = own_scale(A, case["n_mean"], False)
     labs, offdiag = matrix_labels(A)
-    labs += ["stochastic_grad", "emb:" + case["emb"], "h:" + case["h"]["kind"]]
+    labs += ["stochastic_grad", "emb:" + case["emb"], "h:" + case["h"]["kind"], "store:" + how,
+             "ns<stored" if ns < pre else ("ns=stored" if ns == pre else "ns>stored(top-up)")]
     if not in_domain(case, x * A):
         ctx.note(case, False, ["out_of_domain"])
         return None
     try:
-        vg = param.VGBS(A, case["n_mean"], make_embedding(case), threshold=False)
-        vg.add_A_init_samples(samples.copy())
+        if how in ("ctor", "ctor_then_add"):
+            vg = param.VGBS(A, case["n_mean"], make_embedding(case), threshold=False,
+                            samples=(samples[:split] if how == "ctor_then_add" else samples).copy())
+        else:
+            vg = param.VGBS(A, case["n_mean"], make_embedding(case), threshold=False)
+        if how == "add":
+            vg.add_A_init_samples(samples.copy())
+        elif how == "two_batches":
+            vg.add_A_init_samples(samples[:split].copy())
+            vg.add_A_init_samples(samples[split:].copy())
+        elif how == "ctor_then_add":
+            vg.add_A_init_samples(samples[split:].copy())
         sc = cost.Stochastic(hfun, vg)
-        g = np.asarray(sc.grad(theta, ns), float)
-        val = float(sc.evaluate(theta, ns))
-        gfd = richardson(lambda t: float(sc.evaluate(t, ns)), theta)
+        np.random.seed(int(case.get("seed", 0)))
+        g = np.asarray(sc.grad(theta, ns), float)  # the first call tops the sample set up when ns > stored
         stored = np.array(vg.A_init_samples)
+        val = float(sc.evaluate(theta, ns))
+        vcall = float(sc(theta, ns))
+        used = np.array(vg.get_A_init_samples(ns))
+        gfd = richardson(lambda t: float(sc.evaluate(t, ns)), theta)
+        stored2 = np.array(vg.A_init_samples)
+        used2 = np.array(vg.get_A_init_samples(ns))
     except Exception as exc:  # pylint: disable=broad-except
         ctx.note(case, False, labs)
         return ctx.crash(exc, "stochastic")
     ctx.note(case, nontrivial=bool(np.linalg.norm(g) > 1e-6 and offdiag), labels=labs)
-    if stored.shape != samples.shape or np.any(stored != samples):
-        return ctx.fail("stochastic.sample_set_changed", "pre-loaded sample set was modified or extended: %r" % (stored.tolist(),))
-    # documented reparametrisation: h(n) sqrt(det(1-A(theta)^2)/det(1-A^2)) prod w_k^n_k, averaged over the fixed samples
+    # ---- bookkeeping of the fixed sample set
+    if ns <= pre:
+        if stored.shape != samples.shape or np.any(stored != samples):
+            return ctx.fail("stochastic.sample_set_changed", "pre-loaded sample set (%s, %d rows) was modified or extended: %r" % (how, pre, stored.tolist()))
+    else:
+        # "If there are fewer than n_samples stored, more samples are generated and added"
+        if stored.ndim != 2 or stored.shape[1] != m or len(stored) < ns or _rows(samples) - _rows(stored):
+            return ctx.fail("stochastic.top_up", "%d rows pre-loaded (%s), %d requested: stored set afterwards %r" % (pre, how, ns, stored.tolist()))
+        fresh = _rows(stored) - _rows(samples)
+        for row in fresh:
+            # PNR samples of a pure zero-mean Gaussian state: non-negative integers, photons come in pairs
+            if min(row) < 0 or sum(row) % 2:
+                return ctx.fail("vgbs.generate_samples.not_pnr_sample", "generated sample %r of the pure state of A_init (PNR mode) has an odd photon number or a negative entry" % (list(row),))
+        if np.any(stored != np.asarray(stored, int)):
+            return ctx.fail("vgbs.generate_samples.not_pnr_sample", "generated samples are not integers: %r" % (stored.tolist(),))
+    if stored2.shape != stored.shape or np.any(stored2 != stored) or used2.shape != used.shape or np.any(used2 != used):
+        return ctx.fail("stochastic.sample_set_not_fixed", "the sample set changed between calls with the same n_samples=%d: %r -> %r" % (ns, stored.tolist(), stored2.tolist()))
+    if used.shape != (ns, m) or _rows(used) - _rows(stored):
+        return ctx.fail("vgbs.get_A_init_samples", "get_A_init_samples(%d) returned %r, stored %r" % (ns, used.tolist(), stored.tolist()))
+    # documented reparametrisation: h(n) sqrt(det(1-A(theta)^2)/det(1-A^2)) prod w_k^n_k, averaged over the n_samples fixed samples
     Ai = x * A
     At, w = own_A_theta(Ai, F, theta)
     ratio = math.sqrt(np.linalg.det(np.eye(m) - At @ At) / np.linalg.det(np.eye(m) - Ai @ Ai))
-    own = float(np.mean([hfun(s) * ratio * np.prod(w ** s) for s in samples]))
+    own = float(np.mean([hfun(s) * ratio * np.prod(w ** s) for s in used]))
     dv = abs(val - own)
     _track(ctx, "stoch_value_err", dv / (1 + abs(own)))
     if dv > 1e-7 * (1 + abs(own)):
-        return ctx.fail("stochastic.evaluate_vs_formula", "Stochastic.evaluate = %.12g, documented formula = %.12g" % (val, own))
+        return ctx.fail("stochastic.evaluate_vs_formula", "Stochastic.evaluate(n_samples=%d of %d stored) = %.12g, documented formula = %.12g" % (ns, len(stored), val, own))
+    if abs(vcall - val) > 1e-12 * (1 + abs(val)):
+        return ctx.fail("stochastic.call_vs_evaluate", "Stochastic.__call__ = %.12g, evaluate = %.12g" % (vcall, val))
     err = float(np.max(np.abs(g - gfd)))
     _track(ctx, "stoch_grad_err", err / (1 + float(np.max(np.abs(gfd)))))
     if err > 1e-6 * (1 + float(np.max(np.abs(gfd)))):
-        return ctx.fail("stochastic.grad_vs_finite_difference", "Stochastic.grad = %s, finite differences of evaluate = %s (max diff %.3g)" % (
-            np.round(g, 9).tolist(), np.round(gfd, 9).tolist(), err))
+        return ctx.fail("stochastic.grad_vs_finite_difference", "Stochastic.grad = %s, finite differences of evaluate = %s (max diff %.3g; n_samples=%d of %d stored)" % (
+            np.round(g, 9).tolist(), np.round(gfd, 9).tolist(), err, ns, len(stored)))
     return None
 
 
@@ -650,6 +729,13 @@ def probs_case(draw):
     threshold = draw(st.booleans())
     case = draw(model_case(threshold=threshold, signed=draw(st.integers(0, 2)) == 0, mmax=5))
     case["hbar"] = draw(st.sampled_from([2.0, 2.0, 1.0, 0.5]))
+    # numpy seed for two samples drawn with VGBS.generate_samples(A(theta)).
+    # finding F73 (fixed; formerly AUDIT-FINDING generate-samples-hbar): at sf.hbar != 2 generate_samples raised ValueError("probabilities contain NaN") (hbar < 2) or
+    # samples a different state (hbar > 2; odd photon numbers from a pure state): thewalrus 0.22 generate_hafnian_sample /
+    # generate_torontonian_sample use hbar only for the means (decompose_cov, Amat are called with the default hbar=2).  Sampling is
+    # therefore only exercised at hbar = 2 for now (minimal case: out/audit/C20-generate-samples-hbar.json).
+    seed_ = draw(st.integers(0, 2 ** 31 - 1))
+    case["gs_seed"] = seed_  # (finding F73, fixed: sampling is exercised at every hbar again)
     return case
 
 
@@ -685,10 +771,23 @@ def check_probs(ctx, case):
             nm0 = float(vg.n_mean(zero))
             nmt = float(vg.n_mean(theta))
             ps = [vg.prob_sample(theta, np.array(p)) for p in (clicks if thr else pats[:12])]
+            gs = None
+            if case.get("gs_seed") is not None:
+                np.random.seed(int(case["gs_seed"]))
+                gs = np.asarray(vg.generate_samples(At_repo, 2))
     except Exception as exc:  # pylint: disable=broad-except
         ctx.note(case, False, labs)
         return ctx.crash(exc, "vgbs")
     ctx.note(case, nontrivial=offdiag, labels=labs)
+    # ---- samples of the model: only what holds with certainty (click patterns are 0/1; a pure zero-mean Gaussian state emits pairs)
+    if gs is not None:
+        ctx.label("generate_samples")
+        if gs.shape != (2, m) or np.any(gs != np.floor(gs)) or np.any(gs < 0):
+            return ctx.fail("vgbs.generate_samples.shape", "generate_samples(A(theta), 2) on %d modes returned %r" % (m, gs.tolist()))
+        if thr and np.any(gs > 1):
+            return ctx.fail("vgbs.generate_samples.not_click_pattern", "threshold mode, samples %r" % (gs.tolist(),))
+        if not thr and np.any(np.sum(gs, axis=1) % 2):
+            return ctx.fail("vgbs.generate_samples.not_pnr_sample", "PNR mode, pure state of A(theta) (hbar=%g): odd photon number in %r" % (hbar, gs.tolist()))
     # ---- initial rescaling
     d0 = float(np.max(np.abs(A_init - x * A))) / float(np.max(np.abs(x * A)))
     _track(ctx, "A_init_rel_err", d0)
@@ -811,12 +910,17 @@ def sim_case(draw):
         for (i, j), p in zip(pairs, present):
             if p:
                 edges.append([i, j, draw(WT) if kind == "weighted" else 1.0])
-    photons = draw(st.sampled_from([0, 1, 2, 2, 3, 3, 4, 4] if m <= 4 else [0, 1, 2, 2, 3, 3]))
+    # (0 photons used to be listed first and was drawn in 40% of the cases)
+    photons = draw(st.sampled_from([2, 3, 4, 2, 3, 4, 1, 0] if m <= 4 else [2, 3, 2, 3, 1, 0]))
     parts = [p for p in partitions(photons) if len(p) <= m] if photons else [[]]
     orbit = parts[draw(st.integers(0, len(parts) - 1))]
-    return {"m": m, "edges": edges, "n_mean": draw(gen.fl(0.2, 3.0)), "loss": draw(st.sampled_from([0.0, 0.0, 0.25, 0.6])),
+    # loss = 1 is the documented upper end of the loss range (the state is the vacuum); fv: also go through the feature-vector
+    # front ends (several orbits / events in one call, exact and Monte-Carlo dispatch)
+    # n_mean = 0 is the lower end of the accepted range ("Mean photon number must be non-negative"): the vacuum
+    return {"m": m, "edges": edges, "n_mean": 0.0 if draw(st.integers(0, 9)) == 9 else draw(gen.fl(0.2, 3.0)),  # (Hypothesis draws 9 in ~5% of the cases)
+            "loss": draw(st.sampled_from([0.0, 0.0, 0.25, 0.6, 1.0])),
             "photons": photons, "orbit": orbit, "max_count": draw(st.integers(1, 3)), "mc_samples": draw(st.integers(1, 12)),
-            "seed": draw(st.integers(0, 2 ** 31 - 1))}
+            "seed": draw(st.integers(0, 2 ** 31 - 1)), "fv": draw(st.integers(0, 2)) == 0}
 
 
 def check_sim(ctx, case):
@@ -837,9 +941,9 @@ def check_sim(ctx, case):
         else:
             g.add_edge(i, j, weight=wt)
     complete = len(case["edges"]) == m * (m - 1) // 2 and not weighted
-    labs = ["similarity", "m=%d" % m, "photons=%d" % photons, "loss" if case["loss"] else "lossless",
-            "complete" if complete else ("weighted" if weighted else "unweighted")]
-    x = own_scale(A, case["n_mean"], False)
+    labs = ["similarity", "m=%d" % m, "photons=%d" % photons, "lossless" if not case["loss"] else ("loss=1" if case["loss"] == 1 else "loss"),
+            "complete" if complete else ("weighted" if weighted else "unweighted")] + (["n_mean=0"] if case["n_mean"] == 0 else [])
+    x = own_scale(A, case["n_mean"], False) if case["n_mean"] > 0 else 0.0
     ref = ref_from_A(x * A, 2.0)
     for k in range(m):
         ref.LossChannel(1 - case["loss"], k)
@@ -902,6 +1006,35 @@ def check_sim(ctx, case):
         lo, hi = len(in_event) * min(vals), len(in_event) * max(vals)
         if not lo - 1e-9 <= pem <= hi + 1e-9:
             return ctx.fail("similarity.prob_event_mc_bound", "MC estimate %.12g outside cardinality*[min p, max p] = [%.12g, %.12g]" % (pem, lo, hi))
+    # ---- feature vectors: "a feature vector of orbit/event probabilities in the same order as" the request; samples=None -> exact
+    if case.get("fv"):
+        ctx.label("feature_vectors")
+        pats2 = [p for p in itertools.product(range(3), repeat=m) if sum(p) == 2]
+        pw2 = {p: gauss_prob(ref.mu, ref.V, p) for p in pats2}
+        orbs = [[1, 1]] + ([list(orbit)] if photons else [])
+        want_o = [float(sum(pw2[p] for p in pats2 if max(p) == 1))] + ([want_orbit] if photons else [])
+        evs = [2, photons]
+        want_e = [float(sum(pw2[p] for p in pats2 if max(p) <= mc)), want_event]
+        fom = fem = None
+        try:
+            fo = similarity.feature_vector_orbits(g, [list(o) for o in orbs], case["n_mean"], None, case["loss"])
+            fe = similarity.feature_vector_events(g, list(evs), mc, case["n_mean"], None, case["loss"]) if pe is not None else None
+            if pom is not None:
+                np.random.seed(case["seed"])
+                fom = similarity.feature_vector_orbits(g, [list(orbit)], case["n_mean"], case["mc_samples"], case["loss"])
+            if pem is not None:
+                np.random.seed(case["seed"])
+                fem = similarity.feature_vector_events(g, [photons], mc, case["n_mean"], case["mc_samples"], case["loss"])
+        except Exception as exc:  # pylint: disable=broad-except
+            return ctx.crash(exc, "similarity.feature_vector")
+        if len(fo) != len(orbs) or max(abs(float(a) - b) for a, b in zip(fo, want_o)) > 1e-8:
+            return ctx.fail("similarity.feature_vector_orbits", "orbits %s (n_mean=%g, loss=%g): %r, brute force over the reference state %r" % (orbs, case["n_mean"], case["loss"], list(fo), want_o))
+        if fe is not None and (len(fe) != 2 or max(abs(float(a) - b) for a, b in zip(fe, want_e)) > 1e-8):
+            return ctx.fail("similarity.feature_vector_events", "events %s, <=%d per mode (n_mean=%g, loss=%g): %r, brute force %r" % (evs, mc, case["n_mean"], case["loss"], list(fe), want_e))
+        if fom is not None and (len(fom) != 1 or abs(float(fom[0]) - pom) > 1e-12):
+            return ctx.fail("similarity.feature_vector_orbits_mc", "samples=%d, same numpy seed: %r vs prob_orbit_mc %.12g" % (case["mc_samples"], list(fom), pom))
+        if fem is not None and (len(fem) != 1 or abs(float(fem[0]) - pem) > 1e-12):
+            return ctx.fail("similarity.feature_vector_events_mc", "samples=%d, same numpy seed: %r vs prob_event_mc %.12g" % (case["mc_samples"], list(fem), pem))
     return None
 
 
@@ -934,9 +1067,54 @@ def vib_case(draw):
     kind, Ud = draw(orthogonal(n))
     T = draw(st.one_of(st.just(0.0), gen.fl(1.0, 2000.0), st.sampled_from([300.0, 1000.0])))
     inp = [[draw(gen.fl(-0.4, 0.4)), draw(gen.angle()), draw(gen.fl(0.0, 0.8)), draw(gen.angle())] for _ in range(n)]
-    return {"n": n, "w": draw(st.lists(FREQ, min_size=n, max_size=n)), "wp": draw(st.lists(FREQ, min_size=n, max_size=n)),
+    case = {"n": n, "w": draw(st.lists(FREQ, min_size=n, max_size=n)), "wp": draw(st.lists(FREQ, min_size=n, max_size=n)),
             "Ud": spec.enc_matrix(Ud), "Ud_kind": kind, "delta": draw(st.lists(gen.fl(-2.0, 2.0), min_size=n, max_size=n)),
             "T": T, "input": inp}
+    # samples for vibronic.energies: 2n counts each (first half <-> wp, second half <-> w); the first one is also passed alone
+    case["esamples"] = [draw(st.lists(st.integers(0, 4), min_size=2 * n, max_size=2 * n)) for _ in range(draw(st.integers(1, 3)))]
+    # the operation fed DIRECTLY (not through gbs_params, whose matrices are real orthogonal and whose alpha is real): complex unitaries,
+    # squeezing of either sign, complex displacements - "U1 (array): unitary matrix", "alpha (array): displacement parameters"
+    if draw(st.integers(0, 2)) == 0:
+        k1, U1 = draw(gen.unitary(n, ["haar", "haar", "diag", "permdiag", "orth"]))
+        k2, U2 = draw(gen.unitary(n, ["haar", "haar", "diag", "permdiag", "identity"]))
+        case["direct"] = {"U1": spec.enc_matrix(U1.astype(complex)), "U2": spec.enc_matrix(U2.astype(complex)), "kinds": [k1, k2],
+                          "r": draw(st.lists(gen.fl(-0.6, 0.6), min_size=n, max_size=n)),
+                          "alpha": [[draw(gen.fl(-1.0, 1.0)), draw(st.one_of(st.just(0.0), gen.fl(-1.0, 1.0)))] for _ in range(n)]}
+    return case
+
+
+def vt_vs_ref(ctx, case, U1, r, U2, alpha, what):
+    """VibronicTransition(U1, r, U2, alpha) on the gaussian backend vs refsim D(alpha) R(U2) S(r) R(U1), on the displaced squeezed input
+    of the case; returns (failure signature, detail) or None"""
+    import strawberryfields as sf
+    from strawberryfields import ops
+    from strawberryfields.apps.qchem import vibronic
+
+    n = case["n"]
+    ref = refsim.Ref(n, 2.0)
+    prog = sf.Program(n)
+    with prog.context as q:
+        for i, (rs, ps, rd, pd) in enumerate(case["input"]):
+            ops.Sgate(rs, ps) | q[i]  # pylint: disable=expression-not-assigned
+            ops.Dgate(rd, pd) | q[i]  # pylint: disable=expression-not-assigned
+        vibronic.VibronicTransition(U1, r, U2, alpha) | tuple(q)  # pylint: disable=expression-not-assigned
+    state = sf.Engine("gaussian").run(prog).state
+    mu, V = np.array(state.means(), float), np.array(state.cov(), float)
+    for i, (rs, ps, rd, pd) in enumerate(case["input"]):
+        ref.Sgate(rs, ps, i)
+        ref.Dgate(rd, pd, i)
+    ref.Interferometer(U1, list(range(n)))
+    for i in range(n):
+        ref.Sgate(float(r[i]), 0.0, i)
+    ref.Interferometer(U2, list(range(n)))
+    for i in range(n):
+        ref.Dgate(abs(alpha[i]), float(np.angle(alpha[i])), i)
+    tol = 1e-8 * (1 + float(np.max(np.abs(ref.V))))
+    dm, dv = float(np.max(np.abs(mu - ref.mu))), float(np.max(np.abs(V - ref.V)))
+    _track(ctx, "vib_op_err", max(dm, dv) / (1 + float(np.max(np.abs(ref.V)))))
+    if dm > tol or dv > tol:
+        return ("VibronicTransition.vs_reference", "%s: D(alpha) R(U2) S(r) R(U1) on the reference gives a different state: |dmu|=%.3g |dV|=%.3g (tol %.2g)" % (what, dm, dv, tol))
+    return None
 
 
 def check_vib(ctx, case):
@@ -1025,6 +1203,35 @@ def check_vib(ctx, case):
         return ctx.fail("gbs_params.negative_T_accepted", "T = -1 accepted")
     except ValueError:
         pass
+    # ---- the operation with directly supplied parameters (complex unitaries / displacements)
+    if case.get("direct"):
+        d = case["direct"]
+        dU1, dU2 = spec.dec_param(d["U1"]), spec.dec_param(d["U2"])
+        dr = np.array(d["r"], float)
+        dal = np.array([complex(a, b) for a, b in d["alpha"]])
+        ctx.label("vt_direct", "vt_direct:complex_alpha" if np.any(dal.imag != 0) else "vt_direct:real_alpha",
+                  "vt_direct:complex_U" if np.any(dU1.imag != 0) or np.any(dU2.imag != 0) else "vt_direct:real_U")
+        try:
+            bad = vt_vs_ref(ctx, case, dU1, dr, dU2, dal, "directly supplied parameters (U kinds %s)" % (d.get("kinds"),))
+        except Exception as exc:  # pylint: disable=broad-except
+            return ctx.crash(exc, "VibronicTransition.direct")
+        if bad:
+            return ctx.fail(bad[0] + ".direct_parameters", bad[1])
+    # ---- energies: E = sum_k m_k wp_k - sum_k n_k w_k, m = first half of the sample, n = second half
+    es = case.get("esamples")
+    if es:
+        ctx.label("energies")
+        try:
+            e_list = vibronic.energies([list(x) for x in es], w.copy(), wp.copy())
+            e_one = vibronic.energies(list(es[0]), w.copy(), wp.copy())
+        except Exception as exc:  # pylint: disable=broad-except
+            return ctx.crash(exc, "energies")
+        want = [sum(x[k] * wp[k] for k in range(n)) - sum(x[n + k] * w[k] for k in range(n)) for x in es]
+        sc_e = 1 + max(abs(v) for v in want)
+        if not isinstance(e_list, list) or len(e_list) != len(es) or max(abs(float(a) - b) for a, b in zip(e_list, want)) > 1e-9 * sc_e:
+            return ctx.fail("vibronic.energies.list", "energies(%s, w=%s, wp=%s) = %r, expected %r" % (es, w.tolist(), wp.tolist(), e_list, want))
+        if np.ndim(e_one) != 0 or abs(float(e_one) - want[0]) > 1e-9 * sc_e:
+            return ctx.fail("vibronic.energies.single_sample", "energies(%s, w=%s, wp=%s) = %r, expected %r" % (es[0], w.tolist(), wp.tolist(), e_one, want[0]))
     return None
 
 
@@ -1236,60 +1443,128 @@ def check_marg(ctx, case):
 # samplers (structure only)
 # =============================================================================================
 @st.composite
+def rotation(draw, n):
+    """plane rotation by an angle in [0.3, 1.2] embedded in n >= 2 modes: orthogonal and NOT symmetric (U^T != U, U U != 1), unlike
+    the reflections that make up half of the QR-generated 2x2 orthogonal matrices"""
+    i, j = draw(st.permutations(list(range(n))))[:2]
+    th = draw(gen.fl(0.3, 1.2))
+    U = np.eye(n)
+    U[i, i] = U[j, j] = math.cos(th)
+    U[i, j], U[j, i] = -math.sin(th), math.sin(th)
+    return U
+
+
+@st.composite
 def samp_case(draw):
-    fn = draw(st.sampled_from(["vibronic", "vibronic", "fock", "coherent", "tmsv"]))
-    N = draw(st.integers(1, 2)) if fn != "fock" else draw(st.integers(2, 3))
-    case = {"fn": fn, "N": N, "n_samples": draw(st.integers(1, 3)), "loss": draw(st.sampled_from([0.0, 0.0, 0.3])),
-            "seed": draw(st.integers(0, 2 ** 31 - 1)), "w": draw(st.lists(FREQ, min_size=N, max_size=N)), "t": draw(gen.fl(0.0, 50.0))}
+    fn = draw(st.sampled_from(["tmsv", "vibronic", "fock", "coherent", "vibronic"]))  # (Hypothesis favours the early entries)
+    # loss = 1 (everything is lost) is the documented upper end of the loss range: the sample is all zeros with certainty
+    loss = draw(st.sampled_from([0.0, 0.0, 0.0, 0.3, 1.0]))
     if fn == "vibronic":
+        # generic / alpha = 0 (photons are created in pairs: the two halves of a lossless sample have the same parity) /
+        # pairs (no interferometer, no squeezing, no displacement: only the two-mode squeezers, the halves are equal mode by mode)
+        vk = draw(st.sampled_from(["generic", "generic", "alpha0", "pairs"]))
+        N = 2 if vk == "pairs" else draw(st.integers(1, 2))
+        if vk == "pairs" and loss:
+            loss = 0.0
+        case = {"fn": fn, "N": N, "n_samples": draw(st.integers(1, 3)), "loss": loss, "seed": draw(st.integers(0, 2 ** 31 - 1)),
+                "w": draw(st.lists(FREQ, min_size=N, max_size=N)), "t": draw(gen.fl(0.0, 50.0))}
         tk = draw(st.sampled_from(["zero", "positive", "mixed"]))
+        if vk == "pairs" and tk == "zero":
+            tk = "positive"
         if tk == "mixed" and N == 1:
             tk = "positive"
-        tv = [0.0 if tk == "zero" else draw(gen.fl(0.05, 0.4)) for _ in range(N)]
+        tamp = gen.fl(0.3, 0.8) if vk == "pairs" else gen.fl(0.05, 0.4)
+        tv = [0.0 if tk == "zero" else draw(tamp) for _ in range(N)]
         if tk == "mixed":
             tv[draw(st.integers(0, N - 1))] = 0.0
-        case.update({"tsq": tv, "tkind": tk, "U1": spec.enc_matrix(draw(orthogonal(N, ("identity", "orth")))[1]),
-                     "U2": spec.enc_matrix(draw(orthogonal(N, ("identity", "orth")))[1]),
-                     "r": draw(st.lists(gen.fl(-0.3, 0.3), min_size=N, max_size=N)),
-                     "alpha": draw(st.lists(st.one_of(st.sampled_from([0.8, 1.0, -1.2]), gen.fl(-1.0, 1.0)), min_size=N, max_size=N))})
+        ukinds = ("identity",) if vk == "pairs" else ("identity", "orth")
+        case["also_total_loss"] = True
+        case.update({"tsq": tv, "tkind": tk, "U1": spec.enc_matrix(draw(orthogonal(N, ukinds))[1]),
+                     "U2": spec.enc_matrix(draw(orthogonal(N, ukinds))[1]),
+                     "r": [0.0] * N if vk == "pairs" else draw(st.lists(gen.fl(-0.3, 0.3), min_size=N, max_size=N)),
+                     "alpha": [0.0] * N if vk != "generic" else draw(
+                         st.lists(st.one_of(st.sampled_from([0.8, 1.0, -1.2]), gen.fl(-1.0, 1.0)), min_size=N, max_size=N))})
+        return case
+    # dynamics: generic / t = 0 with a non-symmetric orthogonal Ul (Ul 1 Ul^T = 1: nothing happens) / Ul a permutation or the identity
+    # (Ul D Ul^T is diagonal: only phases).  In the last two the lossless sample is determined by the input with certainty.
+    dk = draw(st.sampled_from(["zero_time", "generic", "diag_Ul", "zero_time"]))
+    N = draw(st.integers(2, 3)) if fn == "fock" else (draw(st.integers(1, 3)) if fn == "coherent" else draw(st.integers(1, 2)))
+    if dk == "zero_time":
+        N = max(N, 2)
+    case = {"fn": fn, "N": N, "n_samples": draw(st.integers(3, 6) if dk != "generic" else st.integers(1, 3)), "loss": loss,
+            "seed": draw(st.integers(0, 2 ** 31 - 1)), "w": draw(st.lists(FREQ, min_size=N, max_size=N)),
+            "t": 0.0 if dk == "zero_time" else draw(gen.fl(0.0, 50.0))}
+    if dk == "zero_time":
+        Ul = draw(orthogonal(N, ("orth",)))[1] if draw(st.integers(0, 3)) == 3 else draw(rotation(N))
+    elif dk == "diag_Ul":
+        Ul = draw(orthogonal(N, ("identity", "perm", "perm")))[1]
     else:
-        case["Ul"] = spec.enc_matrix(draw(orthogonal(N, ("identity", "perm", "orth", "orth")))[1])
-        if fn == "fock":
-            case["input"] = draw(st.lists(st.integers(0, 2), min_size=N, max_size=N))
-            case["cutoff"] = sum(case["input"]) + 1 + draw(st.integers(0, 1))
-        elif fn == "coherent":
-            case["alpha"] = [[draw(gen.fl(0.0, 0.8)), draw(gen.angle())] for _ in range(N)]
-        else:
-            case["r"] = [[draw(gen.fl(0.0, 0.5)), draw(gen.angle())] for _ in range(N)]
+        Ul = draw(orthogonal(N, ("identity", "perm", "orth", "orth")))[1]
+    case["Ul"] = spec.enc_matrix(Ul)
+    case["also_total_loss"] = True
+    if fn == "fock":
+        case["input"] = draw(st.lists(st.integers(0, 2), min_size=N, max_size=N))
+        case["cutoff"] = sum(case["input"]) + 1 + draw(st.integers(0, 1))
+    elif fn == "coherent":
+        # amplitude exactly 0 in some modes: a mode that is in the vacuum and (t = 0 / diagonal Ul) uncoupled never clicks
+        if dk == "generic":
+            case["alpha"] = [[draw(st.one_of(st.just(0.0), gen.fl(0.0, 0.8), gen.fl(0.6, 1.2))), draw(gen.angle())] for _ in range(N)]
+        else:  # one empty mode next to bright ones
+            z = draw(st.integers(0, N - 1))
+            case["alpha"] = [[0.0 if i == z else draw(gen.fl(0.8, 1.4)), draw(gen.angle())] for i in range(N)]
+    else:
+        case["r"] = [[draw(gen.fl(0.0, 0.5) if dk == "generic" else gen.fl(0.5, 1.0)), draw(gen.angle())] for _ in range(N)]
     return case
+
+
+def _is_signed_perm(U):
+    U = np.asarray(U)
+    return bool(np.all(np.sum(U != 0, axis=0) == 1) and np.all(np.sum(U != 0, axis=1) == 1))
 
 
 def check_samp(ctx, case):
     from strawberryfields.apps.qchem import dynamics, vibronic
 
     fn, N, ns, loss = case["fn"], case["N"], case["n_samples"], case["loss"]
-    labs = ["sampler:" + fn, "loss" if loss else "lossless"]
+    labs = ["sampler:" + fn, "lossless" if not loss else ("loss=1" if loss == 1 else "loss")]
     w = np.array(case["w"], float)
+    pairs = alpha0 = still = False
+    if fn == "vibronic":
+        U1, U2 = spec.dec_param(case["U1"]), spec.dec_param(case["U2"])
+        alpha0 = not any(case["alpha"])
+        pairs = alpha0 and not any(case["r"]) and np.array_equal(U1, np.eye(N)) and np.array_equal(U2, np.eye(N)) and any(case["tsq"])
+        labs += ["t_" + case["tkind"]] + (["vib:pairs_only"] if pairs else (["vib:alpha=0"] if alpha0 else []))
+    else:
+        Ul = spec.dec_param(case["Ul"])
+        still = case["t"] == 0 or _is_signed_perm(Ul)  # Ul exp(-i w t n) Ul^T is diagonal: photon numbers of the modes do not change
+        if still:
+            labs.append("dyn:t=0" if case["t"] == 0 else "dyn:diagonal_Ul")
+            if case["t"] == 0 and not np.allclose(Ul, Ul.T, atol=1e-6):
+                labs.append("dyn:t=0,Ul_not_symmetric")
+    width = 2 * N if fn in ("vibronic", "tmsv") else N
+
+    def call(ns_, loss_):
+        if fn == "vibronic":
+            return vibronic.sample(np.array(case["tsq"], float), U1, np.array(case["r"], float), U2, np.array(case["alpha"], float), ns_, loss_)
+        if fn == "fock":
+            return dynamics.sample_fock(list(case["input"]), case["t"], Ul, w.copy(), ns_, case["cutoff"], loss_)
+        if fn == "coherent":
+            return dynamics.sample_coherent([list(a) for a in case["alpha"]], case["t"], Ul, w.copy(), ns_, loss_)
+        return dynamics.sample_tmsv([list(a) for a in case["r"]], case["t"], Ul, w.copy(), ns_, loss_)
+
     np.random.seed(case["seed"])
     try:
-        if fn == "vibronic":
-            labs.append("t_" + case["tkind"])
-            s = vibronic.sample(np.array(case["tsq"], float), spec.dec_param(case["U1"]), np.array(case["r"], float),
-                                spec.dec_param(case["U2"]), np.array(case["alpha"], float), ns, loss)
-            width = 2 * N
-        elif fn == "fock":
-            s = dynamics.sample_fock(list(case["input"]), case["t"], spec.dec_param(case["Ul"]), w, ns, case["cutoff"], loss)
-            width = N
-        elif fn == "coherent":
-            s = dynamics.sample_coherent(case["alpha"], case["t"], spec.dec_param(case["Ul"]), w, ns, loss)
-            width = N
-        else:
-            s = dynamics.sample_tmsv(case["r"], case["t"], spec.dec_param(case["Ul"]), w, ns, loss)
-            width = 2 * N
+        s = call(ns, loss)
+        # the same device once more with everything lost (every case, so that each sampler meets loss = 1 at every seed)
+        s_lost = call(1, 1.0) if case.get("also_total_loss") and loss != 1 else None
     except Exception as exc:  # pylint: disable=broad-except
         ctx.note(case, False, labs)
         return ctx.crash(exc, "sample_" + fn)
     ctx.note(case, nontrivial=N >= 2, labels=labs)
+    if s_lost is not None:
+        ctx.label("second_call_loss=1")
+        if not isinstance(s_lost, list) or len(s_lost) != 1 or len(s_lost[0]) != width or any(s_lost[0]):
+            return ctx.fail("sampler.%s.total_loss" % fn, "second call with loss = 1 (every photon is lost), one sample requested: %r" % (s_lost,))
     if not isinstance(s, list) or len(s) != ns:
         return ctx.fail("sampler.%s.count" % fn, "%d samples requested, got %r" % (ns, s))
     for row in s:
@@ -1299,12 +1574,27 @@ def check_samp(ctx, case):
             return ctx.fail("sampler.%s.width" % fn, "sample %r does not have %d entries" % (row, width))
         if any((not isinstance(v, int)) or isinstance(v, bool) or v < 0 for v in row):
             return ctx.fail("sampler.%s.not_counts" % fn, "sample %r is not a list of non-negative ints" % (row,))
+        if loss == 1 and any(row):
+            return ctx.fail("sampler.%s.total_loss" % fn, "loss = 1 (every photon is lost) but the sample is %r" % (row,))
         if fn == "vibronic" and case["tkind"] == "zero" and any(row[N:]):
             return ctx.fail("sampler.vibronic.zero_T_ancilla", "t = 0 but the second half of the sample is %r" % (row[N:],))
+        if fn == "vibronic" and not loss and alpha0 and (sum(row[:N]) - sum(row[N:])) % 2:
+            return ctx.fail("sampler.vibronic.pair_parity", "alpha = 0, no loss: photons are created in pairs, but the halves of %r differ in parity" % (row,))
+        if fn == "vibronic" and not loss and pairs and row[:N] != row[N:]:
+            return ctx.fail("sampler.vibronic.two_mode_squeezed_pairs", "only two-mode squeezers t=%s act: halves of %r must be equal" % (case["tsq"], row))
         if fn == "fock" and (sum(row) > sum(case["input"]) or (not loss and sum(row) != sum(case["input"]))):
             return ctx.fail("sampler.fock.photon_number", "input %s -> sample %s (loss=%g)" % (case["input"], row, loss))
+        if fn == "fock" and still and not loss and row != list(case["input"]):
+            return ctx.fail("sampler.fock.trivial_dynamics", "t=%g, Ul=%s: Ul U(t) Ul^T is diagonal, yet input %s -> sample %s" % (case["t"], np.round(Ul, 4).tolist(), case["input"], row))
+        if fn == "fock" and still and loss and any(a > b for a, b in zip(row, case["input"])):
+            return ctx.fail("sampler.fock.trivial_dynamics", "t=%g, diagonal evolution with loss: input %s -> sample %s gained photons in a mode" % (case["t"], case["input"], row))
         if fn == "tmsv" and not loss and sum(row[:N]) != sum(row[N:]):
             return ctx.fail("sampler.tmsv.photon_pairs", "lossless TMSV sample %s: halves carry different photon numbers" % (row,))
+        if fn == "tmsv" and still and not loss and row[:N] != row[N:]:
+            return ctx.fail("sampler.tmsv.trivial_dynamics", "t=%g, Ul=%s: Ul U(t) Ul^T is diagonal, yet the halves of %s differ" % (case["t"], np.round(Ul, 4).tolist(), row))
+        if fn == "coherent" and still and any(v and not a[0] for v, a in zip(row, case["alpha"])):
+            return ctx.fail("sampler.coherent.trivial_dynamics", "t=%g, Ul=%s: Ul U(t) Ul^T is diagonal, amplitudes %s, yet a vacuum mode clicked: %s" % (
+                case["t"], np.round(Ul, 4).tolist(), [a[0] for a in case["alpha"]], row))
     return None
 
 
@@ -1328,7 +1618,7 @@ SUBS = [
         shards={"quick": 1, "thorough": 4}, rule="utils.duschinsky vs definitions with hand-typed constants"),
     Sub("marginals", check=check_marg, strategy=lambda ctx: marg_case(), examples={"quick": 300, "thorough": 3000},
         shards={"quick": 1, "thorough": 8}, rule="utils.marginals vs own loop-hafnian photon statistics of reduced refsim states; utils.prob"),
-    Sub("samplers", check=check_samp, strategy=lambda ctx: samp_case(), examples={"quick": 90, "thorough": 900},
+    Sub("samplers", check=check_samp, strategy=lambda ctx: samp_case(), examples={"quick": 300, "thorough": 1500},
         shards={"quick": 1, "thorough": 8}, rule="structure of vibronic.sample / dynamics.sample_* outputs, deterministic photon bookkeeping"),
 ]
 
